@@ -51,7 +51,7 @@ def parseSt (j : Json) : Option St := do
 
 /-- C07.bond_unbond_tight -/
 def okBondUnbond (a r supply p : Int) : Bool :=
-  decide (2 * (P * P * P) * (p - a) ≤ P * P * P + (P * P + P + 2) * r + 4 * supply * (P * P))
+  decide (2 * (P * P * P) * (p - a) ≤ P * P * P + (P * P + P + 2) * r + 4 * supply * P)
 /-- C07.bond_unbond -/
 def okBondUnbondCeil (a r supply p : Int) : Bool := decide (p ≤ a + Dec.ceilInt r + (4 * supply) / (P * P))
 /-- C07.others_unharmed_bond -/
